@@ -145,6 +145,9 @@ def check_spaces(ck):
     ck.fact("RescaleObservation.space", space_eq(e.observation_space, stacks.RS_MIN, stacks.RS_MAX) and e.action_space is e.env.action_space, "advertises Box(min,max)")
     e = build(["FlattenObservation"], "box")
     ck.fact("FlattenObservation.space", space_eq(e.observation_space, [-np.inf] * 2, inf) and e.observation_space.shape == (2,), "advertises an unbounded flat box of flat_size")
+    # the exactness obligations treat the limit N as a symbol read from the constructed wrapper: N must be the constructor's argument
+    lims = {n: int(np.asarray(W.TimeLimit(base_d, n).max_episode_steps)) for n in (1, 2, 3, 1000)}
+    ck.fact("TimeLimit.keeps_its_limit", all(k == v for k, v in lims.items()), f"TimeLimit(env, N).max_episode_steps for N in {list(lims)}: {list(lims.values())}")
     for nm in ("Identity", "TimeLimit", "ClipReward", "TransformReward"):
         try:
             e = build([nm], "box")
@@ -428,6 +431,7 @@ def main():
     specs = [[n] for n in names]
     pairs = [list(p) for p in itertools.product(names, repeat=2)]
     specs += pairs
+    specs += [[n] for n in stacks.EXTRA_LAYERS] + [[n, "TimeLimit"] for n in stacks.EXTRA_LAYERS]
     if ck.thorough:
         fam = {"a": ["ClipAction", "RescaleAction", "TransformAction"], "o": ["ClipObservation", "RescaleObservation", "FlattenObservation", "TransformObservation"],
                "r": ["ClipReward", "TransformReward"], "t": ["TimeLimit"]}
